@@ -11,7 +11,7 @@ use serde_json::json;
 pub const CLOSE_KINDS: [Kind; 11] = [Kind::Sma, Kind::Ema, Kind::Wma, Kind::Sd, Kind::Mad, Kind::Rsi, Kind::Macd, Kind::Ppo, Kind::Er, Kind::Bb, Kind::Roc];
 pub const ONE_PRICE_KINDS: [Kind; 5] = [Kind::Fast, Kind::Slow, Kind::Tr, Kind::Atr, Kind::Kc];
 
-pub const RULE: &str = "Twin instances in lock-step over bar streams whose five fields vary independently (BARS5: not consistent OHLC, signs mixed) and over valid OHLCV streams: (a) next(&bar) vs next(bar.close()) for SMA/EMA/WMA/SD/MAD/RSI/MACD/PPO/ER/BB/ROC, vs low for MIN, vs high for MAX, within 1e-12 relative (bit-identity reported); (b) one-price bars (o=h=l=c=x) vs the scalar path on x for FAST/SLOW/TR/ATR/KC (KC additionally within a few ulps of the largest |x| for (x+x+x)/3); (c) next(&bar) vs next(&bar') where bar' differs only in fields the indicator is not documented to read (replaced by arbitrary values incl. NaN/inf), bit-equal, all 22 indicators; (d) the harness Bar vs a second user type with a different layout vs ta::DataItem carrying the same numbers, bit-equal, all 22 indicators; (e) exhaustively, every sequence of a fixed depth over the edge alphabet {-2,-0.0,0.0,0.75,nextafter(0.75),3e-17,3.5} for periods 1..=3, relations (a) and (b). Random streams include exact zeros, signed zeros, one-ulp neighbours and price units from 1e-20 to 1e15. Parameters sampled (periods 1..=300, multipliers). Non-trivial: stream longer than the period; distinct by hash of (relation, indicator, params, stream head).";
+pub const RULE: &str = "Twin instances in lock-step over bar streams whose five fields vary independently (BARS5: not consistent OHLC, signs mixed) and over valid OHLCV streams: (a) next(&bar) vs next(bar.close()) for SMA/EMA/WMA/SD/MAD/RSI/MACD/PPO/ER/BB/ROC, vs low for MIN, vs high for MAX, within 1e-12 relative (bit-identity reported); (b) one-price bars (o=h=l=c=x) vs the scalar path on x for FAST/SLOW/TR/ATR/KC (KC additionally within a few ulps of the largest |x| for (x+x+x)/3); (c) next(&bar) vs next(&bar') where bar' differs only in fields the indicator is not documented to read (replaced by arbitrary values incl. NaN/inf), within 1e-12 relative, all 22 indicators (bit-identity reported; a stricter bit-for-bit requirement would also fire on instance-to-instance nondeterminism, which is C05's claim); (d) the harness Bar vs a second user type with a different layout vs ta::DataItem carrying the same numbers, same tolerance, all 22 indicators; (e) exhaustively, every sequence of a fixed depth over the edge alphabet {-2,-0.0,0.0,0.75,nextafter(0.75),3e-17,3.5} for periods 1..=3, relations (a) and (b). Random streams include exact zeros, signed zeros, one-ulp neighbours and price units from 1e-20 to 1e15. Parameters sampled (periods 1..=300, multipliers). Non-trivial: stream longer than the period; distinct by hash of (relation, indicator, params, stream head).";
 
 const REL: f64 = 1e-12;
 
@@ -208,8 +208,8 @@ fn run_enum_implementors(ctx: &Ctx) -> Report {
             let ob: Vec<Op> = seq.iter().map(|b| Op::NextBar(*b)).collect();
             let o2: Vec<Op> = seq.iter().map(|b| Op::NextBar2(*b)).collect();
             let oi: Vec<Op> = seq.iter().map(|b| Op::NextItem(*b)).collect();
-            twin(rep, &p, "bar_vs_dataitem", &ob, &oi, 0.0, 0.0, true);
-            twin(rep, &p, "bar_vs_second_user_type", &ob, &o2, 0.0, 0.0, true);
+            twin(rep, &p, "bar_vs_dataitem", &ob, &oi, REL, 0.0, false);
+            twin(rep, &p, "bar_vs_second_user_type", &ob, &o2, REL, 0.0, false);
             rep.count("enum.implementor_sequences");
             rep.distinct_by_construction += 1;
             code += stride;
@@ -294,7 +294,7 @@ fn run_random(ctx: &Ctx) -> Report {
                     Op::NextBar(Bar::from_fields(f))
                 })
                 .collect();
-            twin(rep, &p, "unread_fields_perturbed", &ops5, &pert, 0.0, 0.0, true);
+            twin(rep, &p, "unread_fields_perturbed", &ops5, &pert, REL, 0.0, false);
             rep.count("relation.unread_fields_perturbed");
             if len > p.max_period() {
                 rep.distinct_case(hash_f64s(3000 + kind as u64 * 7 + p.p[0] as u64 * 131, &head5));
@@ -310,9 +310,9 @@ fn run_random(ctx: &Ctx) -> Report {
         let o52: Vec<Op> = five.iter().map(|b| Op::NextBar2(*b)).collect();
         for kind in ALL_KINDS {
             let p = variant(kind, &mut rng);
-            twin(rep, &p, "bar_vs_second_user_type", &ov, &ov2, 0.0, 0.0, true);
-            twin(rep, &p, "bar_vs_dataitem", &ov, &ovi, 0.0, 0.0, true);
-            twin(rep, &p, "bar_vs_second_user_type", &ops5, &o52, 0.0, 0.0, true);
+            twin(rep, &p, "bar_vs_second_user_type", &ov, &ov2, REL, 0.0, false);
+            twin(rep, &p, "bar_vs_dataitem", &ov, &ovi, REL, 0.0, false);
+            twin(rep, &p, "bar_vs_second_user_type", &ops5, &o52, REL, 0.0, false);
             rep.add("relation.implementor_types", 3);
             if valid.len() > p.max_period() {
                 rep.distinct_case(hash_f64s(4000 + kind as u64 * 7 + p.p[0] as u64 * 131, &headv));
